@@ -308,3 +308,57 @@ Proof.
   intros. destruct pids as [|p0 ps] eqn:EP; [discriminate|].
   cbn [wait_fg_o]. apply wait_o_fuel. exact H.
 Qed.
+
+(** ---------- [Term.settle] is [wait_o] on the answers of Term.v's own kernel
+    model: same session state (everything but [procs], which the oracle loop
+    does not touch). So the theorems above speak about the loop the sessions
+    of Model/Term.v run. *)
+Definition core_eq (a b : core) : Prop := shl a = shl b /\ outs a = outs b.
+Definition st_eq (a b : st) : Prop :=
+  core_eq (k a) (k b) /\ md a = md b /\ owner a = owner b /\ smask a = smask b /\
+  gh a = gh b /\ wevs a = wevs b.
+
+Lemma wait_body_core_eq : forall ka kb gid pids w e, core_eq ka kb ->
+  core_eq (fst (wait_body ka gid pids w e)) (fst (wait_body kb gid pids w e)) /\
+  snd (wait_body ka gid pids w e) = snd (wait_body kb gid pids w e).
+Proof.
+  intros ka kb gid pids w e [A B]. unfold wait_body, core_eq.
+  rewrite A, B. destruct (wait_one (shl kb) gid pids w e). cbn. auto.
+Qed.
+
+Lemma wait_body_procs : forall kk gid pids w e, procs (fst (wait_body kk gid pids w e)) = procs kk.
+Proof. intros. unfold wait_body. destruct (wait_one (shl kk) gid pids w e). reflexivity. Qed.
+
+Lemma finish_st_eq : forall c ka kb v ow m g rest, core_eq ka kb ->
+  st_eq (finish c ka v ow m g rest) (finish c kb v ow m g rest).
+Proof. intros. destruct v as [[]|]; cbn; repeat split; apply H. Qed.
+
+Lemma settle_is_wait_o : forall c gid pids v rest ow m g fuel kk kt w we status,
+  core_eq kk kt ->
+  match wait_o c fuel (kreplies fuel (procs kt)) kk gid pids w v rest ow m g we status with
+  | WReturned s' _ _ => st_eq s' (settle c fuel (waiting_st kt gid pids w v rest ow m g we))
+  | WBlocked s1 _ => st_eq s1 (settle c fuel (waiting_st kt gid pids w v rest ow m g we))
+  | WOutOfFuel => exists k1 w1 we1,
+      settle c fuel (waiting_st kt gid pids w v rest ow m g we) = waiting_st k1 gid pids w1 v rest ow m g we1
+  end.
+Proof.
+  intros c gid pids v rest ow m g. induction fuel as [|f IH]; intros kk kt w we status E.
+  - cbn. eauto.
+  - cbn [kreplies settle waiting_st md k owner smask gh wevs].
+    destruct (next_status (procs kt)) as [[e ps]|] eqn:N.
+    + cbn [wait_o].
+      destruct (wait_body_core_eq kk (set_procs kt ps) gid pids w e) as [E1 E2]; [exact E|].
+      pose proof (wait_body_procs (set_procs kt ps) gid pids w e) as P.
+      destruct (wait_body kk gid pids w e) as [k1 w1] eqn:WB1.
+      destruct (wait_body (set_procs kt ps) gid pids w e) as [k2 w2] eqn:WB2.
+      cbn [fst snd set_procs procs] in E1, E2, P. subst w2.
+      destruct (negb (is_cont e) && (length pids <=? length w1)%nat).
+      * apply finish_st_eq. exact E1.
+      * specialize (IH k1 k2 w1 (we ++ [e])
+          (if is_cont e then status
+           else if memZ (ev_pid e) pids && (ev_pid e =? last pids 0) then ev_status e else status) E1).
+        rewrite P in IH. exact IH.
+    + destruct (all_gone (procs kt)); cbn [wait_o].
+      * apply finish_st_eq. exact E.
+      * repeat split; apply E.
+Qed.
